@@ -460,7 +460,17 @@ def csv_servers(rng):
 def gen_opt(rng):
     params = user_options(rng, dense=True) + env_params(rng)
     if rng.random() < 0.55:
-        params.append("csv=" + hx(csv_servers(rng)))
+        csv = csv_servers(rng)
+        if rng.random() < 0.3:
+            # a user-specified list with a link-local server on an interface of the virtual table:
+            # save/dup/reinit must keep its interface name and scope id
+            ll = "%s%%%s" % (linklocal(rng), rng.choice(IFACES))
+            if rng.random() < 0.5:
+                ll = "[%s]:%s%%%s" % (linklocal(rng), rng.choice(["53", "5353", "853"]), rng.choice(IFACES))
+            parts = [x for x in csv.split(",") if x] if "," in csv or " " not in csv else [csv]
+            parts.insert(rng.randint(0, len(parts)), ll)
+            csv = ",".join(parts)
+        params.append("csv=" + hx(csv))
     elif rng.random() < 0.2:
         ents = []
         for _ in range(rng.randint(1, 4)):
@@ -532,8 +542,24 @@ def gen_fn(rng):
     ls = []
     for _ in range(rng.randint(0, 5)):
         ls.append(("A", "%s %s" % (rng.choice(["foo", "www", "FOO", "bar", "x" * 63, "x" * 64]), rng.choice(["www.example.com", "a_b.example", "bad!name", "", "x" * 255, "x" * 256]))))
-    for _ in range(rng.randint(0, 3)):
-        ls.insert(rng.randint(0, len(ls)), ("a", rng.choice(["# comment", "", "other www.example.org", "\x01\x02 x", "lonely"])))
+    if rng.random() < 0.6:
+        # a line that does define the alias, so that junk for the SAME alias before it matters
+        ls.insert(rng.randint(0, len(ls)), ("A", "%s%s%s%s" % (rng.choice([name, name.upper(), name.capitalize()]), rng.choice([" ", "\t", "   "]),
+                                                                 rng.choice(["real.example.com", "h-1.example.", "a_b", "x" * 255]), rng.choice(["", " trailing words", "\t# c"]))))
+    same = lambda: rng.choice([name, name.upper(), name.lower(), name.capitalize()])
+    for _ in range(rng.choice([0, 1, 1, 2, 3])):
+        c = rng.random()
+        if c < 0.6:
+            # the same alias with a target that is no host name: other characters, nothing, over-long, garbage glued on
+            j = same() + rng.choice([" ", "\t", "  "]) + rng.choice(["www.exa!mple.com", "=> realhost", "-> realhost", "", "  ", "x" * 256, "h." * 200, "host.example.com!",
+                                                                        "host.example.com,other", "\"host.example\"", "host\x01.example", "host\x80\xff", "(none)", "h:53", "[::1]", "caf\xc3\xa9.example"])
+        elif c < 0.8:
+            j = rng.choice(["# comment", "", "other www.example.org", "\x01\x02 x", "lonely", "#%s real.example.com" % name, "%sx real.example.com" % name,
+                            "x" * rng.choice([64, 65, 300]) + " real.example.com"])
+        else:
+            j = junk_line(rng, "binary").replace("\x00", "\x01")
+        # mostly BEFORE the lines that define aliases
+        ls.insert(0 if rng.random() < 0.5 else rng.randint(0, len(ls)), ("a", j))
     return "fn,f=alias&name=%s|%s" % (hx(name), ";".join(t + hx(l) for t, l in ls))
 
 
